@@ -6,7 +6,7 @@
 // `sh -c 'echo "<family> <type> <id> start|stop" >> file'`, really spawned by externalcmd. A lifecycle is
 // protocol {RTSP, RTMP, SRT, HLS, WebRTC} x role {read, publish} x ending {the client closes, it is kicked through
 // the API, the publisher leaves, the path is recreated by a configuration change through the API, the protocol
-// server is recreated by a configuration change, everything is recreated, the Core shuts down; RTSP: PAUSE, PAUSE+PLAY},
+// server is recreated by a configuration change, everything is recreated, the Core shuts down; RTSP: PAUSE, PAUSE+PLAY, PLAY sent again while playing, PLAY again + PAUSE},
 // plus the family "the establishment of a reader session fails part-way" (role readfail, see failed.go): no publisher,
 // user without read permission, maxReaders reached, RTSP SETUP without PLAY, HLS muxer without instance, ...
 //
@@ -42,7 +42,7 @@ type Lifecycle struct {
 	ID      int    `json:"id"`
 	Proto   string `json:"proto"`  // rtsp rtsps rtmp rtmps srt hls webrtc
 	Role    string `json:"role"`   // read publish readfail
-	Ending  string `json:"ending"` // close kick publeave pathreload serverreload allreload shutdown pause pauseplay idle; readfail: see failed.go
+	Ending  string `json:"ending"` // close kick publeave pathreload serverreload allreload shutdown pause pauseplay playagain playagain-pause idle; readfail: see failed.go
 	Workers int    `json:"workers"`
 }
 
@@ -57,7 +57,7 @@ func buildLifecycles(thorough bool) []Lifecycle {
 	for _, pr := range protos {
 		endings := []string{"close", "kick", "publeave", "pathreload", "serverreload", "allreload", "shutdown"}
 		if pr == "rtsp" || pr == "rtsps" {
-			endings = append(endings, "pause", "pauseplay")
+			endings = append(endings, "pause", "pauseplay", "playagain", "playagain-pause")
 		}
 		for _, e := range endings {
 			if pr == "hls" && e == "close" {
@@ -305,7 +305,7 @@ func main() {
 	r.Set("runs_in_which_a_reload_terminated_the_core", coreTerminated)
 	r.Set("objects_by_family_and_type", byFamily)
 	r.Rule = "protocol x role {read, publish} x ending {client closes, kicked through the API, publisher leaves, path recreated by an API " +
-		"configuration change, protocol server recreated, everything recreated, Core shutdown, RTSP PAUSE / PAUSE+PLAY, HLS idle}; every " +
+		"configuration change, protocol server recreated, everything recreated, Core shutdown, RTSP PAUSE / PAUSE+PLAY / PLAY again while playing / PLAY again then PAUSE, HLS idle}; every " +
 		"read lifecycle has the reader under test, a second reader of the same protocol that stays, and the publisher's connection; " +
 		"a class = lifecycle x the (family, type, role in the lifecycle, fired sequence) of every hook object || " +
 		"the establishment of a reader session fails part-way (role readfail): protocol x {no publisher, user without read permission, " +
